@@ -35,6 +35,11 @@ pub fn binary<F: RawFloat, const FORMAT: u128>(num: &Number, lossy: bool) -> Ext
         exp: 0,
     };
 
+    // A literal 0 is 0 with any exponent, and cannot be normalized.
+    if num.mantissa == 0 {
+        return fp_zero;
+    }
+
     // Normalize our mantissa for simpler results.
     let ctlz = num.mantissa.leading_zeros();
     let mantissa = num.mantissa << ctlz;
